@@ -178,7 +178,11 @@ Inductive dcase :=
 | CPrefix (ops : list (list (Z * option Z)))                               (* batches in submission order (raw ops) *)
           (copies : list (nat * nat * list (Z * option Z)))               (* per online copy: batches returned before it began, submitted when it ended, contents of the destination *)
           (final_lo : nat)                                                 (* batches known durable at the clean close (all of them with safe batches) *)
-          (final : list (Z * option Z)).                                  (* contents after close and reopen *)
+          (final : list (Z * option Z))                                   (* contents after close and reopen *)
+| CKill (ops1 : list (list (Z * option Z))) (lo hi : nat)                 (* batches of the killed session; acknowledged / submitted when SIGKILL hit *)
+        (obs1 : list (Z * option Z))                                      (* contents at the reopen after the kill *)
+        (ops2 : list (list (Z * option Z)))                               (* batches written after the reopen (safe mode, clean close) *)
+        (obs2 : list (Z * option Z)).                                     (* contents at the final reopen *)
 
 (* spec-level judgement for indexes the trace model cannot follow from its initial state (an index
    made by the offline Builder): every online copy holds the replay of a whole-batch prefix that is
@@ -193,6 +197,18 @@ Definition check_prefix (ops : list (list (Z * option Z))) (copies : list (nat *
                     existsb (fun k => docs_are_prefix bs k docs) (seq lo (S (hi - lo)))) copies
   && existsb (fun k => docs_are_prefix bs k final) (seq final_lo (S (length bs - final_lo))).
 
+(* a process killed at an arbitrary instant (SIGKILL, no hook involved): the event log may lag behind
+   what reached the disk, so the run is judged by the statement itself: the reopened index holds the
+   replay of a whole-batch prefix k with acknowledged <= k <= submitted, and what is written
+   afterwards lands on top of exactly that prefix *)
+Definition check_kill (ops1 : list (list (Z * option Z))) (lo hi : nat) (obs1 : list (Z * option Z))
+                      (ops2 : list (list (Z * option Z))) (obs2 : list (Z * option Z)) : bool :=
+  let b1 := map collapse ops1 in
+  let b2 := map collapse ops2 in
+  existsb (fun k => docs_are_prefix b1 k obs1
+                    && list_eqb pairZoZ_eqb (map (fun p => (fst p, replay (firstn k b1 ++ b2) (fst p))) obs2) obs2)
+          (seq lo (S (hi - lo))).
+
 Definition xinit : xs := mkXs dinit [] [] false None [].
 
 Definition dcheck (c : dcase) : bool :=
@@ -204,6 +220,7 @@ Definition dcheck (c : dcase) : bool :=
       end
   | CRet _ _ _ _ => true
   | CPrefix ops copies flo final => check_prefix ops copies flo final
+  | CKill ops1 lo hi obs1 ops2 obs2 => check_kill ops1 lo hi obs1 ops2 obs2
   end.
 
 Inductive dexpl :=
@@ -224,4 +241,7 @@ Definition dexplain (c : dcase) : dexpl :=
             (map (fun c => let '(lo, hi, docs) := c in
                            if existsb (fun k => docs_are_prefix (map collapse ops) k docs) (seq lo (S (hi - lo))) then 1%nat else 0%nat) copies)
             0%nat
+  | CKill ops1 lo hi obs1 _ _ =>
+      EDisk None [] [] [] None (length ops1)
+            (filter (fun k => docs_are_prefix (map collapse ops1) k obs1) (seq 0 (S (length ops1)))) (hi - lo)
   end.
